@@ -288,7 +288,8 @@ static void bcheck(const Case* c, Buf* b, const char* which, int is_send, const 
         hex8(b->exp + first[k], tot - first[k], e);
         printf("BAD %d rank=%d kind=%s buf=%s off=%ld got=%s exp=%s nbytes=%ld of=%ld\n", c->idx, me,
                is_send ? "sendbuf-modified" : (k == 1 && b->nonsig) ? "nonroot-write" : names[k], which, first[k] - GUARD, g, e, cnt[k], b->bytes);
-      }
+      } else /* after 40 detailed lines per rank only the verdict */
+        printf("BAD %d rank=%d kind=%s\n", c->idx, me, is_send ? "sendbuf-modified" : (k == 1 && b->nonsig) ? "nonroot-write" : names[k]);
     }
 }
 
@@ -618,8 +619,8 @@ static void finish(const Case* c, Slot* S)
     S->rc = MPI_Wait(&S->req, MPI_STATUS_IGNORE);
   if (S->rc != MPI_SUCCESS) {
     n_bad++;
-    if (n_badlines++ < 40)
-      printf("BAD %d rank=%d kind=rc code=%d\n", c->idx, me, S->rc);
+    n_badlines++;
+    printf("BAD %d rank=%d kind=rc code=%d\n", c->idx, me, S->rc);
   } else {
     bcheck(c, &S->s, "send", 1, &c->dt);
     bcheck(c, &S->r, "recv", 0, &c->dt);
